@@ -7,9 +7,13 @@ Helper lemmas first (namespace Gms.Outfile), property theorems at the end (names
 Full statement (FALSE for the code as it is, see the `finding_*` theorems):
   ∀ o rows n, optsWF o → (∀ r ∈ rows, r.length = n) → 0 < n → roundTrip o n rows = specRows rows
 Proved: `impl_roundtrip_partial` — the same under `region o rows = none` (no value contains a
-delimiter byte or is the NULL spelling).
+delimiter byte or is the NULL spelling); `impl_roundtrip_chunked_partial` — the same when the
+reader delivers the file in ANY chunking (`scan`: bufio.Scanner calling the stateless split
+function `splitFn` on a growing buffer), by `scan_whole` (Gms/Lemmas/LineScan.lean): the streaming
+scanner produces the whole-file split for every chunking.
 -/
 import Gms.Model.Outfile
+import Gms.Lemmas.LineScan
 import Gms.Generated.C50
 
 namespace Gms.Outfile
@@ -366,12 +370,6 @@ theorem parseLine_row (o : Opts) (w : WF o) (v : Val) (vs : List Val) (hv : ∀ 
 
 /-! ### Line splitting -/
 
-theorem splitLines_skip (lt l rest cur : Bytes) :
-    splitLines lt l.length (l ++ rest) cur = splitLines lt 0 rest cur := by
-  induction l with
-  | nil => rfl
-  | cons c cs ih => simpa [splitLines] using ih
-
 theorem splitLines_line (lt content rest cur : Bytes) (hl : lt ≠ []) (hc : lt.headD 0 ∉ content) :
     splitLines lt 0 (content ++ lt ++ rest) cur = (cur.reverse ++ content ++ lt) :: splitLines lt 0 rest [] := by
   match lt, hl with
@@ -562,6 +560,22 @@ theorem facts_match :
     Generated.C50.writerNullSpellings = ["NULL", "%sN"] := by
   decide
 
+/-- Shape of the streaming reader, regenerated on this run: `buildLoadData` hands the scanner the
+method value `n.SplitLines` (no per-scanner closure), with an unbounded token size; `SplitLines`
+is the stateless function `splitFn` models — one `bytes.Index` over the *whole* pending `data`
+(not over a suffix of it), the four returns of `splitFn`, no variable other than the index `i`,
+no function literal, and it does not touch any state outside its arguments. -/
+theorem facts_scanner :
+    Generated.C50.scannerSplitArg = "n.SplitLines" ∧
+    Generated.C50.scannerBufferArgs = ["nil", "int(types.LongTextBlobMax)"] ∧
+    Generated.C50.splitLinesIndexArgs = ["data", "[]byte(l.LinesTerminatedBy)"] ∧
+    Generated.C50.splitLinesReturns = ["0, nil, nil",
+      "i + len(l.LinesTerminatedBy), data[0 : i+len(l.LinesTerminatedBy)], nil", "len(data), data, nil", ""] ∧
+    Generated.C50.splitLinesConds = ["atEOF && len(data) == 0", "i >= 0", "atEOF"] ∧
+    Generated.C50.splitLinesAssigned = ["i"] ∧
+    Generated.C50.splitLinesFuncLits = 0 := by
+  decide
+
 /-- The model's escape table is total: outside the extracted keys a byte is copied. -/
 theorem unesc_default (c : UInt8) (h : c ∉ Generated.C50.unescTable.map (·.1)) : unesc c = [c] := by
   simp [Generated.C50.unescTable] at h
@@ -595,6 +609,49 @@ theorem impl_roundtrip_partial (o : Opts) (n : Nat) (rows : List (List Val))
     roundTrip o n rows = specRows rows :=
   readFile_writeFile o (wf_of_optsWF o ho) n hn rows hlen (plain_of_region o rows hreg)
 
+/-! ### The streaming reader: chunking independence -/
+
+/-- For EVERY way the reader cuts the file into chunks (4096-byte refills, a terminator cut in two
+by a refill, one byte at a time, empty reads), `bufio.Scanner` driven by `SplitLines` produces the
+whole-file split. -/
+theorem scan_whole (lt : Bytes) (hl : lt ≠ []) (chunks : List Bytes) :
+    scan lt [] chunks = splitLines lt 0 chunks.flatten [] := by
+  simpa using scan_eq lt hl chunks []
+
+/-- Two chunkings of the same bytes give the same lines. -/
+theorem scan_chunking_independent (lt : Bytes) (hl : lt ≠ []) (cs₁ cs₂ : List Bytes)
+    (h : cs₁.flatten = cs₂.flatten) : scan lt [] cs₁ = scan lt [] cs₂ := by
+  rw [scan_whole lt hl, scan_whole lt hl, h]
+
+/-- The table LOAD DATA produces does not depend on the chunking. -/
+theorem read_chunking_independent (o : Opts) (hl : o.lt ≠ []) (n : Nat) (chunks : List Bytes) :
+    readFileChunked o n chunks = readFile o n chunks.flatten := by
+  simp [readFileChunked, readFile, scan_whole o.lt hl]
+
+/-- Non-vacuity: `\r\n` cut in two by a read boundary, a one-byte-at-a-time reader, an empty read,
+an unterminated last line — and what the whole-file split gives for the same bytes. -/
+example : scan [13, 10] [] [[97, 13], [10, 98, 13, 10, 99]] = [[97, 13, 10], [98, 13, 10], [99]]
+    ∧ scan [13, 10] [] [[97], [13], [], [10], [98], [13], [10], [99]] = [[97, 13, 10], [98, 13, 10], [99]]
+    ∧ splitLines [13, 10] 0 [97, 13, 10, 98, 13, 10, 99] [] = [[97, 13, 10], [98, 13, 10], [99]]
+    ∧ splitFn [13, 10] [97, 13] false = (0, none) ∧ splitFn [13, 10] [97, 13, 10, 98] false = (3, some [97, 13, 10])
+    ∧ splitFn [13, 10] [99] true = (1, some [99]) ∧ splitFn [13, 10] [] true = (0, none) := by
+  decide
+
+/-- Why the split function may not simply resume where the buffered bytes ended: a splitter that
+remembers `searched = len(data)` after an unsuccessful search (`splitFnResume 0`) never sees a
+terminator cut in two by a read boundary — two lines come out as one token. Moving the resume point
+back by `len(terminator) - 1` (`splitFnResume 1` for a 2-byte terminator) repairs it. -/
+theorem resume_at_buffer_end_loses_line :
+    ∃ lt chunks, lt ≠ [] ∧ scanResume 0 lt [] 0 chunks ≠ splitLines lt 0 chunks.flatten []
+      ∧ scanResume (lt.length - 1) lt [] 0 chunks = splitLines lt 0 chunks.flatten [] :=
+  ⟨[13, 10], [[97, 13], [10, 98, 13, 10]], by decide⟩
+
+/-- The same optimisation with the resume point `len(data) - (len(terminator) - 1)` is equivalent
+to the stateless `SplitLines` for every terminator and every chunking. -/
+theorem scan_resume_correct (lt : Bytes) (hl : lt ≠ []) (chunks : List Bytes) :
+    scanResume (lt.length - 1) lt [] 0 chunks = splitLines lt 0 chunks.flatten [] := by
+  rw [scanResume_ok lt hl chunks [] 0 (inv_zero lt []), scan_whole lt hl]
+
 def csv : Opts := { ft := [44], enc := [34], encOpt := true, esc := [92], lt := [10], ls := [] }
 def dflt : Opts := { ft := [9], enc := [], encOpt := false, esc := [92], lt := [10], ls := [] }
 
@@ -611,6 +668,22 @@ example : optsWF csv = true ∧ region csv [[.num [49], .text [97, 32, 98], .nul
 region when it is written enclosed, and it does come back. -/
 example : region csv [[.text [97, 44, 98], .num [56]]] = none
     ∧ roundTrip csv 2 [[.text [97, 44, 98], .num [56]]] = [[some [97, 44, 98], some [56]]] := by decide
+
+/-- Round trip through a streaming reader, guarded as above: however the bytes written by
+`INTO OUTFILE` are cut into chunks on their way into `bufio.Scanner`, `LOAD DATA` gives back the rows. -/
+theorem impl_roundtrip_chunked_partial (o : Opts) (n : Nat) (rows : List (List Val)) (chunks : List Bytes)
+    (ho : optsWF o = true) (hn : 0 < n) (hlen : ∀ r ∈ rows, r.length = n)
+    (hreg : region o rows = none) (hc : chunks.flatten = writeFile o rows) :
+    readFileChunked o n chunks = specRows rows := by
+  rw [read_chunking_independent o (wf_of_optsWF o ho).lt_ne, hc]
+  exact impl_roundtrip_partial o n rows ho hn hlen hreg
+
+/-- Non-vacuity: the CRLF file of two rows, cut inside the first `\r\n`. -/
+example : let o : Opts := { csv with lt := [13, 10] }
+    optsWF o = true ∧ region o [[.num [49], .text [97]], [.num [50], .null]] = none
+    ∧ writeFile o [[.num [49], .text [97]], [.num [50], .null]] = [49, 44, 34, 97, 34, 13] ++ [10, 50, 44, 92, 78, 13, 10]
+    ∧ readFileChunked o 2 [[49, 44, 34, 97, 34, 13], [10, 50, 44, 92, 78, 13, 10]] = [[some [49], some [97]], [some [50], none]] := by
+  decide
 
 /-! ### Findings: the unchanged writer escapes nothing but the line terminator (F-C50-a) -/
 
